@@ -287,3 +287,41 @@ macro_rules! read_string_len {
 }
 read_string_len!(c20_read_string_len4, 4, 8);
 read_string_len!(c20_read_string_len6, 6, 10);
+
+// ------------------------------------------------------------------ C20: type strings
+
+/// parse_data_type (the parser of the type strings stored in binary files) on a concrete
+/// parametrised prefix followed by EVERY tail of N ASCII bytes: returns Ok or Err, never panics
+/// (a damaged length prefix can cut the string anywhere, e.g. right after "VARCHAR(").
+fn parse_type_total<const N: usize>(prefix: &str) {
+    let tail: [u8; N] = kani::any();
+    let mut s = String::with_capacity(prefix.len() + N);
+    s.push_str(prefix);
+    let mut i = 0;
+    while i < N {
+        kani::assume(tail[i] < 0x80);
+        s.push(tail[i] as char);
+        i += 1;
+    }
+    let r = vibesql_storage::persistence::binary::verif_parse_data_type(&s);
+    kani::cover!(r.is_ok(), "accepted");
+    std::mem::forget((r, s));
+}
+
+macro_rules! parse_type {
+    ($name:ident, $prefix:expr, $n:expr) => {
+        #[kani::proof]
+        #[kani::unwind(16)]
+        #[kani::stub(std::fmt::format, format_stub)]
+        fn $name() {
+            parse_type_total::<$n>($prefix);
+        }
+    };
+}
+parse_type!(c20_parse_type_varchar_0, "VARCHAR(", 0);
+parse_type!(c20_parse_type_varchar_1, "VARCHAR(", 1);
+parse_type!(c20_parse_type_varchar_2, "VARCHAR(", 2);
+parse_type!(c20_parse_type_char_1, "CHAR(", 1);
+parse_type!(c20_parse_type_float_1, "FLOAT(", 1);
+parse_type!(c20_parse_type_numeric_2, "NUMERIC(", 2);
+parse_type!(c20_parse_type_decimal_0, "DECIMAL(", 0);
